@@ -7,6 +7,7 @@ import Frp.Props.C17Dispatch
 import Frp.Model.Lane
 import Frp.Props.C17Lane
 import Frp.Props.C17Batch
+import Frp.Props.C17Udp
 import Frp.Model.IPText
 /-
   Driver engine "codec": replays the harness trace (real msg.WriteMsg / ReadMsg / ReadMsgInto and
@@ -467,6 +468,44 @@ def parsePayload (w : String) : Option Str :=
   | 'p' :: h => unhexAux h
   | _ => none
 
+/-- a udp packet as the harness dumps it: payload / content and the two addresses, every field raw -/
+structure PktW where
+  payload : Str
+  l : Option UdpPacket.Addr
+  r : Option UdpPacket.Addr
+  deriving DecidableEq
+
+/-- `n` | `<ip hex>.<port>.<zone hex>` -/
+def parseAddrW (w : String) : Option (Option UdpPacket.Addr) :=
+  if w = "n" then some none else
+  match w.splitOn "." with
+  | [ih, pw, zh] =>
+    match unhexAux ih.toList, pw.toInt?, unhexAux zh.toList with
+    | some ip, some port, some zone => some (some ⟨ip, port, zone⟩)
+    | _, _, _ => none
+  | _ => none
+
+def renderAddrW : Option UdpPacket.Addr → String
+  | none => "n"
+  | some a => hexOf a.ip ++ "." ++ intText a.port ++ "." ++ hexOf a.zone
+
+/-- `p<hex>/<local>/<remote>` -/
+def parsePktW (w : String) : Option PktW :=
+  match w.splitOn "/" with
+  | [p, l, r] =>
+    match parsePayload p, parseAddrW l, parseAddrW r with
+    | some p, some l, some r => some ⟨p, l, r⟩
+    | _, _, _ => none
+  | _ => none
+
+def renderPktW (k : PktW) : String := "p" ++ hexOf k.payload ++ "/" ++ renderAddrW k.l ++ "/" ++ renderAddrW k.r
+
+/-- what the peer holds according to the model: the packet `udp.NewUDPPacket` builds, over the wire, through
+    `udp.GetContent` (Model/UdpPacket.lean, Props/C17Udp.lean `wire`).  `none`: an address outside the IP text law -/
+def modelPkt (v : PktW) : Option PktW :=
+  (C17.wire (UdpPacket.newUDPPacket v.payload v.l v.r)).bind (fun q =>
+    (UdpPacket.getContent q).map (fun c => ⟨c, q.laddr, q.raddr⟩))
+
 /-- the JSON text `json.Marshal(&UDPPacket{Content: c, …})` starts with: `{"c":"<c>"` followed by `,` or `}`;
     an empty content is omitted (omitempty).  base64 text needs no JSON escaping. -/
 def udpBodyHasContent (body c : Str) : Bool :=
@@ -488,19 +527,27 @@ def batchItem (entry : String) (ws : List String) : Option (List String × Bool)
       let rOk := unhx (dropS rw 1) == some mframe
       let rEcho := if rOk then rw else "R" ++ hx mframe
       if entry = "udp" then
-        match parsePayload (dropS vw 1) with
+        match parsePktW (dropS vw 1) with
         | none => none
-        | some payload =>
+        | some v =>
+          let payload := v.payload
           let bOk := t == 117 && udpBodyHasContent body (C17.udpPack payload)
-          let imm := parsePayload (dropS iw 1)
-          let late := parsePayload (dropS lw' 1)
-          let iOk := C17.udpContent (C17.udpPack payload) == imm
+          let imm := parsePktW (dropS iw 1)
+          let late := parsePktW (dropS lw' 1)
+          -- the model's packet: content AND both addresses, field by field
+          let mdl := modelPkt v
+          let iOk := mdl.isSome && mdl == imm
           let ok := match imm, late with
-            | some i, some l => C17.udpItemHolds payload i l
+            | some i, some l =>
+              C17.udpItemHolds payload i.payload l.payload
+                && UdpPacket.addrOk v.l && UdpPacket.addrOk v.r
+                && C17.udpObsHolds ⟨payload, v.l, v.r, i.payload, i.l, i.r⟩
+                && decide (l = i)
             | _, _ => false
           let lOk := ok || !iOk
           some ([tw, if bOk then bw else "BODY-WITHOUT-THE-PACKED-CONTENT", ow, vw,
-                 if iOk then iw else "I" ++ vw.drop 1, if lOk then lw else "LCHANGED-AFTER-LATER-DECODES", rEcho],
+                 if iOk then iw else (match mdl with | some m => "I" ++ renderPktW m | none => "IADDRESS-OUTSIDE-THE-IP-TEXT-LAW"),
+                 if lOk then lw else "LCHANGED-AFTER-LATER-DECODES", rEcho],
                 bOk && ok && rOk)
       else
         match C17.structOf t, parseTreeAll (dropS vw 1) with
@@ -539,6 +586,61 @@ def batchStep (tok : List String) (impl : String) : Verdict :=
         verdictOf model impl (some (items.length == k && rs.all (·.2)))
     | _, _ => .bad "batch result"
   | _ => .bad "batch"
+
+/-! ### `fwd`: the two forwarders on real sockets (Props/C17Udp.lean §3) -/
+
+def chunk2 : List String → Option (List (List String))
+  | [] => some []
+  | a :: b :: r => (chunk2 r).map (fun l => [a, b] :: l)
+  | _ => none
+
+/-- one packet of a forwarder run: (words of the model, claimed?, clause holds?) -/
+def fwdItem (side : String) (ws : List String) : Option (List String × Bool × Bool) :=
+  match ws with
+  | [vw, iw] =>
+    if iw = "Ilost" || iw = "Inobind" || iw = "Inosend" then some ([vw, iw], false, true) else
+    match parsePktW (dropS vw 1) with
+    | none => none
+    | some v =>
+      match v.r with
+      | none =>
+        -- a nil remote address: cli only (`Forwarder` keys it "<nil>" and packs the answer with nil)
+        let mdl : Option PktW := modelPkt ⟨v.payload, none, none⟩
+        let imm := parsePktW (dropS iw 1)
+        let ok := match imm with
+          | some i => C17.udpObsHolds ⟨v.payload, none, none, i.payload, i.l, i.r⟩
+          | none => false
+        some ([vw, if mdl.isSome && mdl == imm then iw else "I" ++ (mdl.map renderPktW).getD "?"], true, side == "cli" && ok)
+      | some a =>
+        -- srv: ForwardUserConn packs the datagram of user `a`; cli: that packet is decoded by frpc, the service echoes
+        -- the payload, the Forwarder packs the answer under the remote address the packet carried
+        let q1 := C17.wire (UdpPacket.userPacket a v.payload)
+        let q := if side == "cli" then q1.bind (fun q => C17.wire (UdpPacket.fwdReply q v.payload)) else q1
+        let mdl : Option PktW := q.bind (fun q => (UdpPacket.getContent q).map (fun c => ⟨c, q.laddr, q.raddr⟩))
+        let imm := parsePktW (dropS iw 1)
+        let ok := match imm with
+          | some i => UdpPacket.ipLaw a.ip && C17.udpObsHolds ⟨v.payload, none, some a, i.payload, i.l, i.r⟩
+          | none => false
+        some ([vw, if mdl.isSome && mdl == imm then iw
+                   else (match mdl with | some m => "I" ++ renderPktW m | none => "IADDRESS-OUTSIDE-THE-IP-TEXT-LAW")], true, ok)
+  | _ => none
+
+def fwdStep (tok : List String) (impl : String) : Verdict :=
+  match tok with
+  | [side, _seed, k] =>
+    if isPanic impl then .diff "no-panic" (some false) else
+    if impl = "nosock" then .skip "no udp socket to be had" else
+    if impl = "stuck" || impl = "badop" then .diff "forwarder-ends-with-its-socket" (some false) else
+    match chunk2 (words impl), k.toNat? with
+    | some items, some k =>
+      match items.mapM (fwdItem side) with
+      | none => .bad "fwd item"
+      | some rs =>
+        if rs.all (fun r => !r.2.1) then .skip "no datagram came through (udp may drop)" else
+        let model := " ".intercalate (rs.flatMap (·.1))
+        verdictOf model impl (some (items.length == k && rs.all (·.2.2)))
+    | _, _ => .bad "fwd result"
+  | _ => .bad "fwd"
 
 def codecStep0 (st : Unit) (tok : List String) (impl : String) : Unit × Verdict :=
   match tok with
@@ -644,6 +746,7 @@ def codecStep0 (st : Unit) (tok : List String) (impl : String) : Unit × Verdict
   | "nh" :: rest => (st, nhStep rest impl)
   | "lane" :: rest => (st, laneStepV rest impl)
   | "batch" :: rest => (st, batchStep rest impl)
+  | "fwd" :: rest => (st, fwdStep rest impl)
   | ["first", b] =>
     match unhx b with
     | none => (st, .bad "first")
